@@ -977,6 +977,13 @@ class Interp:
         if isinstance(o, ast.Add):
             if isinstance(a, str) and isinstance(b, str):
                 return a + b
+            if isinstance(a, str) or isinstance(b, str) or fname(a) == "concat" or fname(b) == "concat":
+                # string concatenation is ordered: keep it out of the commutative algebra
+                parts = []
+                for x in (a, b):
+                    tx = to_term(x)
+                    parts.extend(tx.args if fname(tx) == "concat" else [tx])
+                return op("concat", *parts)
             if isinstance(a, list) and isinstance(b, list):
                 return a + b
             if isinstance(a, tuple) and isinstance(b, tuple):
